@@ -12,6 +12,12 @@ def run(chk):
     chk.add("token_level_cases", len(cases))
     chk.add("sentences", sum(1 for c in cases if c["acc"]))
     total += parse.replay_verdicts(chk, th, cases, "c04:tokens", chk.seed)
+    # one edit away from every sentence: a refused token inside an otherwise complete program (decided by the automaton)
+    edits = parse.sentence_edits(cases, chk.seed, per_sentence=150 if chk.thorough else None)
+    ev = parse.decide(chk, edits, name="edits")
+    total += parse.replay_decided(chk, th, edits, ev, "c04:edits", chk.seed + 5)
+    chk.add("sentence_edits", len(edits))
+    chk.add("sentence_edits_accepted_by_spec", sum(1 for v in ev.values() if v["acc"]))
     cases = parse.enumerate_cases(chk, n_tok + 1, "tokens", name="enum_pre", pre=True)
     chk.add("token_level_cases_after_prelude", len(cases))
     chk.add("sentences", sum(1 for c in cases if c["acc"]))
@@ -34,7 +40,7 @@ def run(chk):
     chk.cov["exhaustive"] = True
     chk.cov["rule"] = ("TheoParse (LL(1) push-down automaton + static rules + sugar) enumerates every viable prefix of <= %d tokens over 2 "
                        "identifiers, 2 integer classes and 22 other token kinds, every sentence among them and every refused one-token "
-                       "extension; chunk-level skeletons (definitions x calls x arities x labels x literals) to depth %d and reference "
+                       "extension; every source one token edit away from a sentence; chunk-level skeletons (definitions x calls x arities x labels x literals) to depth %d and reference "
                        "skeletons to depth %d; 1-4 token mutations of generated programs decided by the automaton; every case is compiled "
                        "for real and the verdicts must agree in both directions" % (n_tok, n_chunk, n_ref))
     chk.assumptions += ["duplicate labels / parameter names and user macros are outside the domain (dropped and counted)",
